@@ -141,6 +141,9 @@ fn main() {
                 wall_cap_s: arg_val(&args, "--wall-cap")
                     .and_then(|s| s.parse().ok())
                     .unwrap_or(0),
+                restarts_left: arg_val(&args, "--restarts-left")
+                    .and_then(|s| s.parse().ok())
+                    .unwrap_or(0),
             };
             macro_rules! m {
                 ($t:ty) => {
